@@ -267,6 +267,9 @@ func ruleC17(c *Ctx) {
 }
 
 // ruleVarStd: VAR-STD (C17, C02).
+// handEncoders: helpers recognised as the base-128 loop of a hand-written WriteBuf.Varint.
+var handEncoders = map[*ssa.Function]bool{}
+
 func ruleVarStd(c *Ctx) {
 	P := c.P
 	c.Rule("VAR-STD", "varints are encoded only by the standard library's encoders (shortest form, at most ten bytes)", 3)
@@ -298,7 +301,22 @@ func ruleVarStd(c *Ctx) {
 		if ok && cnt == 1 {
 			c.OK(fnKey(m)+"/std", P.pos(m.Pos()), "exactly binary.AppendVarint(w.buf, v)")
 		} else {
-			c.Unk(fnKey(m)+"/std", P.pos(m.Pos()), "WriteBuf.Varint is not a single call of binary.AppendVarint on its argument: shortest-form encoding cannot be delegated to the standard library (this rule cannot judge a hand-written encoder)")
+			bufF0 := uniqueFieldWhere(wbT, func(t types.Type) bool {
+				sl, ok := t.Underlying().(*types.Slice)
+				return ok && isBasicKind(sl.Elem(), types.Byte)
+			})
+			verdict, msg, hs := handVarint(P, m, bufF0)
+			for h := range hs {
+				handEncoders[h] = true
+			}
+			switch verdict {
+			case 1:
+				c.OK(fnKey(m)+"/std", P.pos(m.Pos()), "recognised by shape: zig-zag of the 64-bit argument, emitted seven bits at a time with continuation bits (or by the standard encoder), single-byte fast paths only where the zig-zag value is below 0x80")
+			case -1:
+				c.Bad(fnKey(m)+"/std", P.pos(m.Pos()), msg)
+			default:
+				c.Unk(fnKey(m)+"/std", P.pos(m.Pos()), "WriteBuf.Varint is neither a single call of binary.AppendVarint on its argument nor a hand-written encoder of a recognised shape ("+msg+")")
+			}
 		}
 	}
 	// no second encoder: the write buffer grows only through Varint, Byte and Write (and Reset truncates);
@@ -361,6 +379,8 @@ func ruleVarStd(c *Ctx) {
 					}
 					switch {
 					case isMethod && (name == "Varint" || name == "Byte" || name == "Write" || name == "Reset"):
+					case handEncoders[fn]:
+						// the base-128 loop of a hand-written Varint, judged with it
 					case plain:
 					default:
 						c.Unk(fnKey(fn)+"/other-writer", P.pos(st.Pos()), "the write buffer is appended to outside WriteBuf.Varint/Byte/Write: a second encoder, whose varints are not known to be the standard library's shortest form of the 64-bit value")
